@@ -6,9 +6,17 @@ package common
 // Decided: no reachable panic, whatever the document.
 
 import (
+	"context"
+	"database/sql"
 	"encoding/base64"
 	"encoding/json"
+	"regexp"
+	"strings"
 
+	"github.com/uptrace/bun"
+	"github.com/uptrace/bun/dialect/pgdialect"
+
+	"github.com/formancehq/go-libs/v5/pkg/storage/bun/paginate"
 )
 
 func c38Cursor(doc any, n int) {
@@ -23,7 +31,41 @@ func c38Cursor(doc any, n int) {
 	all := c21Items(n)
 	// what the API does with a decoded cursor: hand it to the repository
 	_, _ = c21Fetch(all, q)
+	// a statement that was emitted sorts by a field of the resource: the column of a cursor is client text and must not
+	// reach the ORDER BY clause unchecked
+	for _, o := range c38OrderExpressions(q) {
+		ok := false
+		for _, c := range []string{"id", "address"} {
+			for _, d := range []string{"ASC", "DESC"} {
+				ok = ok || o == c+" "+d || o == "dataset."+c+" "+d
+			}
+		}
+		verifAssert("C38:a-cursor's-column-reaches-the-statement-only-if-the-resource-has-it", ok)
+	}
 	verifReach("end")
+}
+
+var c38OrderRe = regexp.MustCompile(`ORDER BY (.*? (?:ASC|DESC))`)
+
+// the ORDER BY expressions of the statement(s) the repository emits for q (none when it refuses q)
+func c38OrderExpressions(q PaginatedQuery[any]) []string {
+	var out []string
+	if verifIsSymbolic() {
+		for i := 0; i < verifBunCount("Order"); i++ {
+			out = append(out, verifBunStr("Order", i))
+		}
+		return out
+	}
+	var stmts []string
+	db := bun.NewDB(sql.OpenDB(c21Connector{&stmts}), pgdialect.New())
+	repo := NewPaginatedResourceRepository[c21Item, any](c21NativeHandler{db: db}, "id", paginate.OrderDesc)
+	_, _ = repo.Paginate(context.Background(), q)
+	for _, st := range stmts {
+		for _, m := range c38OrderRe.FindAllStringSubmatch(st, -1) {
+			out = append(out, strings.ReplaceAll(m[1], `"`, ""))
+		}
+	}
+	return out
 }
 
 var c38Keys = []string{"column", "order"}
@@ -53,4 +95,6 @@ func Harness_C38_cursor_off_column()   { c38OffsetField("column", 2) }
 func Harness_C38_cursor_off_order()    { c38OffsetField("order", 2) }
 func Harness_C38_cursor_off_pageSize() { c38OffsetField("pageSize", 3) }
 func Harness_C38_cursor_off_offset()   { c38OffsetField("offset", 3) }
-func Harness_C38_cursor_whole()        { c38Cursor(verifJSONValue("doc", 1, []string{"paginationID", "offset"}), 2) }
+func Harness_C38_cursor_whole() {
+	c38Cursor(verifJSONValue("doc", 1, []string{"paginationID", "offset"}), 2)
+}
